@@ -493,14 +493,18 @@ func (c *Ctx) rulesR3net() {
 	if uc == nil || fAS == nil {
 		return
 	}
+	// sites in updateClock or its hosted helpers, ordered through the
+	// instructions that stand for them in updateClock
 	var stores []ssa.Instruction
-	for _, s := range c.sitesIn(uc, "method:Store") {
+	for _, s := range c.innerSites(uc, "method:Store") {
 		args := s.Common().Args
 		if len(args) == 2 && fieldOf(args[0]) == fAS {
-			stores = append(stores, s)
+			if si := c.standIn(uc, s); si != nil {
+				stores = append(stores, si)
+			}
 		}
 	}
-	ph := c.sitesIn(uc, prpc+":NetworkMachine.processHandlers")
+	ph := c.standInSites(uc, prpc+":NetworkMachine.processHandlers")
 	if len(stores) < 1 || len(ph) < 1 {
 		c.undecided("C01.net: activeStates.Store / processHandlers not found in updateClock")
 		return
@@ -509,7 +513,7 @@ func (c *Ctx) rulesR3net() {
 	for _, h := range ph {
 		dom := false
 		for _, s := range stores {
-			if dominatesInstr(s, h) {
+			if s != h && dominatesInstr(s, h) {
 				dom = true
 			}
 		}
